@@ -42,6 +42,8 @@ structure Client where
   xform : Option Nat := none         -- responseBodyTransformer
   autoReadOff : Bool := false        -- disableAutoReadResponse
   transport : Nat := 0               -- identity of httpClient / Transport (fresh per client)
+  digest : Bool := false             -- digestAuth (SetCommonDigestAuth was called); its handler is a
+                                     -- built-in stage: it is not part of `after` and displaces nothing
   deriving DecidableEq, Repr
 
 abbrev Store := List Client
@@ -57,6 +59,7 @@ inductive Op
   | onError (c : Cid) (id : Nat)
   | setXform (c : Cid) (id : Nat)
   | autoRead (c : Cid) (off : Bool)
+  | digestAuth (c : Cid)                  -- c.SetCommonDigestAuth(u, p)
   deriving DecidableEq, Repr
 
 /-- `WrapRoundTrip`. -/
@@ -92,6 +95,7 @@ def apply (rebuild : Bool) (st : Store) : Op → Store
   | .onError c id => update st c fun cl => { cl with hook := some id }
   | .setXform c id => update st c fun cl => { cl with xform := some id }
   | .autoRead c off => update st c fun cl => { cl with autoReadOff := off }
+  | .digestAuth c => update st c fun cl => { cl with digest := true }
 
 def build (rebuild : Bool) (ops : List Op) : Store := ops.foldl (apply rebuild) []
 
@@ -147,5 +151,6 @@ def Op.target : Op → Option Cid
   | .onError c _ => some c
   | .setXform c _ => some c
   | .autoRead c _ => some c
+  | .digestAuth c => some c
 
 end Req.CloneChain
